@@ -14,6 +14,8 @@ def spec(th, seed):
         units.append(U('C02_matrix.part%d.aligned-avx2' % p, SRC, 'plain', defs=['-DPART=%d' % p, '-mavx2', '-mfma'] + SIMD, libs=LIBS, scale=0.5))
     # AVX without AVX2 takes its own double-precision paths (convert_splat<...>::detailAVX, 2x128-bit integer halves)
     units.append(U('C02_matrix.part1.aligned-avx', SRC, 'plain', defs=['-DPART=1', '-mavx', '-mfma'] + SIMD, libs=LIBS, scale=0.3))
+    # size-optimised build (code under __OPTIMIZE_SIZE__, different inlining)
+    units.append(U('C02_matrix.part1.Os', SRC, 'plainOs', defs=['-DPART=1', '-DNQ=1'], libs=LIBS, scale=0.3))
     # constructors written for compilers without initializer lists (the #if !GLM_HAS_INITIALIZER_LISTS bodies)
     units.append(U('C02_matrix.part2.cxx98', SRC, 'plain', defs=['-DPART=2', '-DGLM_FORCE_CXX98', '-DNQ=1'], libs=LIBS, scale=0.2))
     if th:
